@@ -336,6 +336,7 @@ def check_property(pid, tier, seed):
     t0 = time.time()
     scratch = tempfile.mkdtemp(prefix='crdverif-')
     problems = []      # things that no longer check: dicts with kind, detail
+    extra_cov = {}
     streams = []
     violations = []    # concrete failing inputs
     known_lines = []
@@ -370,6 +371,14 @@ def check_property(pid, tier, seed):
             for a in aproblems:
                 problems.append(dict(kind='audit', detail=a))
             discharged = sum(1 for n in names if n in found and all(a in ALLOWED_AXIOMS for a in found[n]))
+            if tier == 'thorough':
+                # independent re-check of the compiled proof modules by the toolchain's external checker
+                for m in prop_modules(pid):
+                    p = run(['lake', 'env', 'leanchecker', 'Crd.Props.' + m], cwd=LEAN, timeout=3600)
+                    if p.returncode != 0:
+                        problems.append(dict(kind='leanchecker', detail=(p.stdout + p.stderr).decode(errors='replace')[-600:]))
+                    else:
+                        extra_cov.setdefault('leanchecker', []).append('Crd.Props.' + m)
         for h in scan_forbidden():
             problems.append(dict(kind='forbidden-construct', detail=h))
         # correspondence + oracles on real observations
@@ -430,7 +439,7 @@ def check_property(pid, tier, seed):
         write_evidence(pid, tier, seed, t0, max(len(names), 1), discharged if not problems else min(discharged, len(names)),
                        "cd /verif/lean && lake build %s && lake env lean Crd/Audit/%s.lean" % (' '.join('Crd.Props.' + m for m in prop_modules(pid)), pid),
                        streams, len(unknown) + (1 if (problems and not unknown) else 0),
-                       dict(theorems=names, coverage=dict(problems=[str(p)[:300] for p in problems[:10]], known_findings=known_lines),
+                       dict(theorems=names, coverage=dict(problems=[str(p)[:300] for p in problems[:10]], known_findings=known_lines, **extra_cov),
                             assumptions=cfg.get('assumptions', [])))
         log("%s %s: %d obligations, %d discharged, %d tie cases, %d problems, %d violations, %.1fs" % (
             pid, tier, len(names), discharged, sum(s['cases'] for s in streams), len(problems), len(unknown), time.time() - t0))
